@@ -18,20 +18,26 @@ class _Yield:
 
 
 class Gate:
+    """Parks every task that reaches one of the doubles' await points until its slot is released.
+    Tasks the library spawns itself (ensure_future, gather ...) belong to the slot that was
+    running when they first parked."""
+
     def __init__(self):
-        self.parked: dict[str, asyncio.Future] = {}
-        self.counts: dict[str, int] = {}
+        self.parked: dict[int, list] = {}        # slot -> futures waiting for a release
+        self.counts: dict[int, int] = {}
+        self.owner: dict[object, int] = {}       # asyncio.Task -> slot
+        self.current = 0
         self.active = False
 
     async def pause(self):
-        task = asyncio.current_task()
-        name = task.get_name() if task is not None else "?"
-        if not self.active or not name.startswith("sched-"):
+        if not self.active:
             await asyncio.sleep(0)
             return
+        task = asyncio.current_task()
+        slot = self.owner.setdefault(task, self.current)
         fut = asyncio.get_running_loop().create_future()
-        self.parked[name] = fut
-        self.counts[name] = self.counts.get(name, 0) + 1
+        self.parked.setdefault(slot, []).append(fut)
+        self.counts[slot] = self.counts.get(slot, 0) + 1
         await fut
 
 
@@ -47,17 +53,18 @@ def pause():
     return GATE.pause()
 
 
-async def _settle(name: str, task: asyncio.Task, spins: int = 50) -> None:
-    """Let the loop run until the task is parked again, finished, or blocked on something else."""
+async def _settle(slot: int, task: asyncio.Task, spins: int = 50) -> None:
+    """Let the loop run until the slot is parked again, finished, or blocked on something else."""
     for _ in range(spins):
         await asyncio.sleep(0)
-        if task.done() or name in GATE.parked:
+        if task.done() or GATE.parked.get(slot):
             return
 
 
 async def _drive(factories: dict[int, object], schedule: list[int]) -> dict[int, object]:
     GATE.parked.clear()
     GATE.counts.clear()
+    GATE.owner.clear()
     GATE.active = True
     tasks: dict[int, asyncio.Task] = {}
     results: dict[int, object] = {}
@@ -68,9 +75,10 @@ async def _drive(factories: dict[int, object], schedule: list[int]) -> dict[int,
 
     try:
         for slot in factories:
+            GATE.current = slot
             tasks[slot] = asyncio.get_running_loop().create_task(wrapper(slot), name=f"sched-{slot}")
-        for slot, t in tasks.items():
-            await _settle(f"sched-{slot}", t)
+            GATE.owner[tasks[slot]] = slot
+            await _settle(slot, tasks[slot])
         order = list(schedule) + [s for _ in range(200) for s in factories]
         for slot in order:
             t = tasks.get(slot)
@@ -78,11 +86,11 @@ async def _drive(factories: dict[int, object], schedule: list[int]) -> dict[int,
                 if all(x.done() for x in tasks.values()):
                     break
                 continue
-            name = f"sched-{slot}"
-            fut = GATE.parked.pop(name, None)
-            if fut is not None and not fut.done():
-                fut.set_result(None)
-            await _settle(name, t)
+            GATE.current = slot
+            for fut in GATE.parked.pop(slot, []):
+                if not fut.done():
+                    fut.set_result(None)
+            await _settle(slot, t)
         for slot, t in tasks.items():
             if not t.done():
                 t.cancel()
@@ -95,6 +103,7 @@ async def _drive(factories: dict[int, object], schedule: list[int]) -> dict[int,
     finally:
         GATE.active = False
         GATE.parked.clear()
+        GATE.owner.clear()
     return results
 
 
@@ -106,7 +115,7 @@ def run_schedule(factories: dict[int, object], schedule: list[int]) -> dict[int,
 def run_solo(factory) -> tuple[object, int]:
     """Run one coroutine alone; returns (result, number of suspensions at the doubles)."""
     res = run_schedule({1: factory}, [])
-    return res[1], max(0, GATE.counts.get("sched-1", 1) - 1)
+    return res[1], max(0, GATE.counts.get(1, 1) - 1)
 
 
 def drive(factory, limit: int = 100000):
